@@ -73,13 +73,13 @@ func Prefix(op string, x *Node) *Node {
 	return &Node{K: KPrefix, S: op, Kids: []*Node{x}}
 }
 func Postfix(op string, id string) *Node { return &Node{K: KPostfix, S: op, Kids: []*Node{Id(id)}} }
-func Infix(op string, l, r *Node) *Node   { return &Node{K: KInfix, S: op, Kids: []*Node{l, r}} }
-func Assign(name string, v *Node) *Node   { return Infix("=", Id(name), v) }
-func Define(name string, v *Node) *Node   { return Infix(":=", Id(name), v) }
-func Index(t, i *Node) *Node              { return &Node{K: KIndex, Kids: []*Node{t, i}} }
-func Dot(t *Node, field string) *Node     { return &Node{K: KDot, S: field, Kids: []*Node{t}} }
-func Slice(t, l, r *Node) *Node           { return &Node{K: KSlice, Kids: []*Node{t, l, r}} }
-func Call(f *Node, args ...*Node) *Node   { return &Node{K: KCall, Kids: append([]*Node{f}, args...)} }
+func Infix(op string, l, r *Node) *Node  { return &Node{K: KInfix, S: op, Kids: []*Node{l, r}} }
+func Assign(name string, v *Node) *Node  { return Infix("=", Id(name), v) }
+func Define(name string, v *Node) *Node  { return Infix(":=", Id(name), v) }
+func Index(t, i *Node) *Node             { return &Node{K: KIndex, Kids: []*Node{t, i}} }
+func Dot(t *Node, field string) *Node    { return &Node{K: KDot, S: field, Kids: []*Node{t}} }
+func Slice(t, l, r *Node) *Node          { return &Node{K: KSlice, Kids: []*Node{t, l, r}} }
+func Call(f *Node, args ...*Node) *Node  { return &Node{K: KCall, Kids: append([]*Node{f}, args...)} }
 func Builtin(name string, args ...*Node) *Node {
 	return &Node{K: KBuiltin, S: name, Kids: args}
 }
@@ -107,7 +107,7 @@ func Return(v *Node) *Node {
 	}
 	return &Node{K: KReturn, Kids: []*Node{v}}
 }
-func Comment(text string) *Node { return &Node{K: KComment, S: text} }
+func Comment(text string) *Node   { return &Node{K: KComment, S: text} }
 func Println(args ...*Node) *Node { return Builtin("println", args...) }
 
 // Clone makes a deep copy.
